@@ -83,6 +83,7 @@ pub fn pool_shard(
     // vary the chain / contract configuration across shards
     wcfg.tf_fees = [vec![cosmwasm_std::coin(1_000, "uom")], vec![], vec![cosmwasm_std::coin(500, "uusdc")], vec![cosmwasm_std::coin(1_000, "uom"), cosmwasm_std::coin(300, "uusdt")]][shard % 4].clone();
     wcfg.pool_creation_fee = [cosmwasm_std::coin(1_000, "uom"), cosmwasm_std::coin(2_500, "uusdc"), cosmwasm_std::coin(0, "uom")][shard % 3].clone();
+    wcfg.subsec_nanos = [0, 123_456_789, 999_999_999, 1][shard % 4];
     tune(&mut gen, &mut wcfg);
     let mut w = World::new(wcfg);
     set_ctx(format!("workload=W-pool seed={} shard={} (generator seed {})", cfg.seed, shard, seed));
@@ -135,6 +136,7 @@ pub fn farm_shard(
     wcfg.max_concurrent_farms = [2, 3, 1, 12][shard % 4];
     wcfg.emergency_unlock_penalty = [cosmwasm_std::Decimal::percent(10), cosmwasm_std::Decimal::percent(2), cosmwasm_std::Decimal::percent(50), cosmwasm_std::Decimal::percent(100)][shard % 4];
     wcfg.farm_fee = [cosmwasm_std::coin(1_000, "uom"), cosmwasm_std::coin(0, "uom"), cosmwasm_std::coin(500, "uusdt")][shard % 3].clone();
+    wcfg.subsec_nanos = [0, 123_456_789, 999_999_999, 1][(shard + 1) % 4];
     tune(&mut gen, &mut wcfg);
     let mut w = World::new(wcfg);
     set_ctx(format!("workload=W-farm seed={} shard={} (generator seed {})", cfg.seed, shard, seed));
